@@ -129,26 +129,29 @@ def _error_at(before, after, lines, slack=1):
 
 
 def _second_run_confined(after1, after2, spans):
-    """are all lines that the second run changed inside one of the given line spans of after1?"""
+    """are all lines that the second run changed inside one of the given line spans of after1?
+    Import lines and blank lines are left out of the comparison altogether: the import that the completed rewrite makes
+    necessary / unnecessary may come or go along with it, wherever it stands relative to the call."""
     import difflib
 
-    def blank_imports(lines):
-        # the import that the completed rewrite makes necessary / unnecessary may come or go along with it: import lines
-        # (and blank lines) are not part of the comparison, wherever they stand relative to the call
-        return ["" if l.strip().startswith(("import ", "from ")) else l for l in lines]
-    a, b = blank_imports(after1.splitlines()), blank_imports((after2 or "").splitlines())
-    for tag, i1, i2, j1, j2 in difflib.SequenceMatcher(None, a, b, autojunk=False).get_opcodes():
+    def items(text):
+        return [(i + 1, l) for i, l in enumerate(text.splitlines())
+                if l.strip() and not l.strip().startswith(("import ", "from "))]
+    a, b = items(after1), items(after2 or "")
+    for tag, i1, i2, j1, j2 in difflib.SequenceMatcher(None, [t for _, t in a], [t for _, t in b], autojunk=False).get_opcodes():
         if tag == "equal":
             continue
-        rows = [i for i in range(i1, i2) if a[i].strip()]
-        if not rows and not any(l.strip() for l in b[j1:j2]):
-            continue
-        lo, hi = (rows[0] + 1, rows[-1] + 1) if rows else (i1 + 1, i1 + 1)
-        if any(s <= lo and hi <= e for s, e in spans):
+        if i2 > i1:
+            lo, hi = a[i1][0], a[i2 - 1][0]
+            if any(s <= lo and hi <= e for s, e in spans):
+                continue
+            return False
+        # pure insertion: it must sit next to (inside) a span
+        near = [a[k][0] for k in (i1 - 1, i1) if 0 <= k < len(a)]
+        if any(s <= ln <= e for ln in near for s, e in spans):
             continue
         return False
     return True
-
 
 
 def classify(prop, codemod, before, after1, after2):
